@@ -7,7 +7,12 @@ Check C11_at_timeout : forall c s dt en i x dl,
   resps (snd (step c s (EvTick dt))) = map (fun h => OResp (hid h) r_tramp_fail) (listeners en) /\
   entry_ (pl (fst (step c s (EvTick dt)))) = None /\
   (forall cid q, ~ In (OCall cid q) (snd (step c s (EvTick dt)))).
+Check C11_no_pay_below_total : forall c s ev en,
+  reachable c s -> entry_ (pl s) = Some en ->
+  sum_amt (listeners en) < e_deliver en + fee_base (pol c) + e_deliver en * fee_ppm (pol c) / 1000000 ->
+  forall cid b am mf md rt, ~ In (OCall cid (QPay b am mf md rt)) (snd (step c s ev)).
 Print Assumptions C11_deadline_window.
 Print Assumptions C11_not_before.
 Print Assumptions C11_at_timeout.
 Print Assumptions C11_restart_bound.
+Print Assumptions C11_no_pay_below_total.
